@@ -23,7 +23,11 @@ fn main() {
     }
     let mut text = String::new();
     let (mut asks, mut lines) = (0u64, 0u64);
+    let verbose = std::env::var("NETDUMP_VERBOSE").is_ok();
     for k in 0..(n + general) {
+        if verbose {
+            eprintln!("netdump: program {k}");
+        }
         let s = seed.wrapping_mul(1_000_003).wrapping_add(k as u64);
         // the first n programs cannot form an ask cycle by construction; the others ("general") may, and are
         // compared only when the build with detection saw no (justified) deadlock
